@@ -392,6 +392,18 @@ class TestClientParsing:
         """Valid JSON of the wrong shape falls through to the text path."""
         assert _parse_unauthorized(b'["nope"]').reason is AuthReason.UNAUTHORIZED
 
+    @pytest.mark.parametrize(
+        "body",
+        [b"[" * 200_000, b'{"a":' * 200_000, b'{"detail":' + b"[" * 200_000],
+        ids=["arrays", "objects", "nested-field"],
+    )
+    def test_deeply_nested_body_degrades(self, body: bytes) -> None:
+        """A body nested past the recursion limit is not the envelope; it must not crash the error path."""
+        err = _parse_unauthorized(body)
+        assert isinstance(err, AuthenticationError)
+        assert err.reason is AuthReason.UNAUTHORIZED
+        assert len(err.detail) <= 500
+
     def test_is_an_rpc_error(self) -> None:
         """Existing ``except RpcError`` call sites keep working."""
         from vgi_rpc.rpc import RpcError
